@@ -425,6 +425,9 @@ func (r *Recorder) onStatus(inc *Incarnation, st raft.Status) {
 	if st.CommitIndex > lo {
 		m := n.Mirror
 		for i := lo + 1; i <= st.CommitIndex; i++ {
+			if i < n.snapLabel {
+				continue // covered by a snapshot on this node: the log below the label is not authoritative
+			}
 			if e, ok := m.get(i); ok {
 				r.regPut(i, e, "commit@"+inc.Name())
 			}
